@@ -15,9 +15,9 @@ mod verif_c14 {
     fn stub_expf(x: f32) -> f32 { x }
     fn stub_cbrtf(x: f32) -> f32 { x }
 
-    fn any_meta() -> (MC, CP, TC, u8, u8, u8) {
-        let m: u8 = kani::any(); let p: u8 = kani::any(); let t: u8 = kani::any();
-        kani::assume(m < 15 && p < 14 && t < 19);
+    fn any_meta(p: u8) -> (MC, CP, TC, u8, u8, u8) {
+        let m: u8 = kani::any(); let t: u8 = kani::any();
+        kani::assume(m < 15 && t < 19);
         let (mc, cp, tc) = (MC_ALL[m as usize], CP_ALL[p as usize], TC_ALL[t as usize]);
         kani::assume(mc != MC::Unspecified && cp != CP::Unspecified && tc != TC::Unspecified);
         (mc, cp, tc, m, p, t)
@@ -45,11 +45,14 @@ mod verif_c14 {
         Yuv::new(Frame { planes: [Plane::from_slice(&[y], 1), Plane::from_slice(&[u], 1), Plane::from_slice(&[v], 1)] }, c).unwrap()
     }
 
+'''
+
+BODY = r'''
     // ---- YUV <-> RGB (single stage: matrix only)
     #[kani::proof]
     #[kani::unwind(66)]
-    fn k_c14_yuv_rgb() {
-        let (mc, cp, tc, in_m, in_p, in_t) = any_meta();
+    fn k_c14_yuv_rgb_p@P@() {
+        let in_p: u8 = @P@; let (mc, cp, tc, in_m, _, in_t) = any_meta(in_p);
         let in_y: u8 = kani::any(); let in_u: u8 = kani::any(); let in_v: u8 = kani::any();
         let c = cfg(mc, cp, tc);
         let dec = Rgb::try_from(&yuv1(c, in_y, in_u, in_v));
@@ -68,9 +71,9 @@ mod verif_c14 {
     // ---- with a standard matrix YUV<->RGB ignores transfer and primaries
     #[kani::proof]
     #[kani::unwind(66)]
-    fn k_c14_yuv_rgb_ignores_tc_cp() {
-        let (mc, cp, tc, in_m, in_p, in_t) = any_meta();
-        let (_, cp2, tc2, _, in_p2, in_t2) = any_meta();
+    fn k_c14_yuv_rgb_ignores_tc_cp_p@P@() {
+        let in_p: u8 = @P@; let (mc, cp, tc, in_m, _, in_t) = any_meta(in_p);
+        let in_p2: u8 = @P2@; let (_, cp2, tc2, _, _, in_t2) = any_meta(in_p2);
         kani::assume(std_mc(mc));
         let in_y: u8 = kani::any(); let in_u: u8 = kani::any(); let in_v: u8 = kani::any();
         let a = Rgb::try_from(&yuv1(cfg(mc, cp, tc), in_y, in_u, in_v)).unwrap();
@@ -91,8 +94,8 @@ mod verif_c14 {
     #[kani::unwind(5)]
     #[kani::stub(yuvxyb_math::pow_exp::powf, stub_powf)]
     #[kani::stub(yuvxyb_math::pow_exp::expf, stub_expf)]
-    fn k_c14_gamma_linear() {
-        let (mc, cp, tc, in_m, in_p, in_t) = any_meta();
+    fn k_c14_gamma_linear_p@P@() {
+        let in_p: u8 = @P@; let (mc, cp, tc, in_m, _, in_t) = any_meta(in_p);
         // both fields offending at once is the recorded finding F7 (checked by the twin harness below)
         kani::assume(sup_cp(cp) || sup_tc(tc));
         let fwd = LinearRgb::try_from(Rgb::new(vec![[0.25, 0.5, 0.75]], 1, 1, tc, cp).unwrap());
@@ -111,8 +114,8 @@ mod verif_c14 {
     #[kani::unwind(5)]
     #[kani::stub(yuvxyb_math::pow_exp::powf, stub_powf)]
     #[kani::stub(yuvxyb_math::pow_exp::expf, stub_expf)]
-    fn k_c14_gamma_linear_both_bad() {
-        let (mc, cp, tc, in_m, in_p, in_t) = any_meta();
+    fn k_c14_gamma_linear_both_bad_p@P@() {
+        let in_p: u8 = @P@; let (mc, cp, tc, in_m, _, in_t) = any_meta(in_p);
         kani::assume(!sup_cp(cp) && !sup_tc(tc));
         let fwd = LinearRgb::try_from(Rgb::new(vec![[0.25, 0.5, 0.75]], 1, 1, tc, cp).unwrap());
         let rev = Rgb::try_from((LinearRgb::new(vec![[0.25, 0.5, 0.75]], 1, 1).unwrap(), tc, cp));
@@ -129,8 +132,8 @@ mod verif_c14 {
     #[kani::stub(yuvxyb_math::pow_exp::powf, stub_powf)]
     #[kani::stub(yuvxyb_math::pow_exp::expf, stub_expf)]
     #[kani::stub(yuvxyb_math::cbrtf::cbrtf, stub_cbrtf)]
-    fn k_c14_yuv_linear_xyb() {
-        let (mc, cp, tc, in_m, in_p, in_t) = any_meta();
+    fn k_c14_yuv_linear_xyb_p@P@() {
+        let in_p: u8 = @P@; let (mc, cp, tc, in_m, _, in_t) = any_meta(in_p);
         let c = cfg(mc, cp, tc);
         let y = yuv1(c, 100, 120, 140);
         let a = LinearRgb::try_from(&y);
@@ -148,8 +151,8 @@ mod verif_c14 {
         if let Err(e) = &z { assert!(names_offender(*e, mc, cp, tc, true, true, true), "error names an offending field"); }
         if let Ok(o) = &b { assert!(o.config() == c && o.width() == 1 && o.height() == 1, "config and dimensions as requested"); }
     }
-}
 '''
+
 
 
 def replay(ctx, spec, f):
@@ -163,16 +166,34 @@ def replay(ctx, spec, f):
 def plan(tier, seed):
     p = Plan()
     p.stubbing = True
-    p.modules.append(("src/lib.rs", MOD))
-    mk = lambda n, what, obl, covers, to=1800, **kw: dict(name=n, family="c14", obligation=obl, timeout=to, mem_gb=14, covers=covers, replay=replay, what=what,
-                                                         sym="(matrix, primaries, transfer) over all 14 x 13 x 18 fully specified enum values (symbolic indices through exhaustive tables); 1x1 images", **kw)
-    p.harnesses = [
-        mk("k_c14_yuv_rgb", "yuvrgb", "YUV<->RGB: Ok or Unsupported* naming an offending field, symmetric, same error, standard matrices always succeed", ["decode succeeds", "decode fails"]),
-        mk("k_c14_yuv_rgb_ignores_tc_cp", "ignore", "with a standard matrix YUV<->RGB results are bit-identical whatever transfer/primaries are (symbolic codes and float pixel)", ["different metadata explored"]),
-        mk("k_c14_gamma_linear", "gamma", "gamma<->linear: contract, symmetry, same error (at most one offending field), labels", ["succeeds", "fails"]),
-        mk("k_c14_gamma_linear_both_bad", "gamma", "gamma<->linear with both transfer and primaries unsupported (known finding F7 domain)", []),
-        mk("k_c14_yuv_linear_xyb", "multi", "YUV<->linear RGB and YUV<->XYB: contract, symmetry, standard combinations succeed", ["succeeds", "fails"]),
-    ]
+    thorough = tier == "thorough"
+    cps = [0, 1, 3, 4, 5, 6, 7, 8, 9, 10, 11, 12, 13]           # every ColorPrimaries value except Unspecified
+    txt = MOD
+    hs = []
+    fams = [("k_c14_yuv_rgb", "yuvrgb", "YUV<->RGB: Ok or Unsupported* naming an offending field, symmetric, same error, standard matrices always succeed", ["decode succeeds", "decode fails"]),
+            ("k_c14_gamma_linear", "gamma", "gamma<->linear: contract, symmetry, same error (at most one offending field), labels", None),
+            ("k_c14_gamma_linear_both_bad", "gamma", "gamma<->linear with both transfer and primaries unsupported (known finding F7 domain)", []),
+            ("k_c14_yuv_linear_xyb", "multi", "YUV<->linear RGB and YUV<->XYB: contract, symmetry, standard combinations succeed", None),
+            ("k_c14_yuv_rgb_ignores_tc_cp", "ignore", "with a standard matrix YUV<->RGB results are bit-identical whatever transfer/primaries are (symbolic codes and float pixel)", ["different metadata explored"])]
+    sup = {1, 4, 5, 6, 7, 8, 9, 10, 11, 12, 13}
+    for cp in cps:
+        cp2 = cps[(cps.index(cp) + 1 + seed) % len(cps)]
+        if cp2 == cp:
+            cp2 = cps[(cps.index(cp) + 1) % len(cps)]
+        txt += BODY.replace("@P@", str(cp)).replace("@P2@", str(cp2))
+        for (fam, what, obl, covers) in fams:
+            if fam == "k_c14_gamma_linear_both_bad" and cp in sup:
+                continue   # vacuous: primaries supported
+            if fam == "k_c14_yuv_rgb_ignores_tc_cp" and not thorough and cp not in (1, 9, 3):
+                continue
+            cv = covers
+            if cv is None:
+                cv = ["succeeds", "fails"] if cp in sup else ["fails"]
+            hs.append(dict(name="%s_p%d" % (fam, cp), family="c14", obligation=obl + " [primaries index %d]" % cp, timeout=1800, mem_gb=12, covers=cv, replay=replay, what=what,
+                           sym="matrix (14 values) and transfer (18 values) symbolic through exhaustive tables, primaries = value #%d of 13 (one instance per value, all 13 run); 1x1 images" % cp))
+    txt += "}" + chr(10)
+    p.modules.append(("src/lib.rs", txt))
+    p.harnesses = hs
     p.functions = ["get_rgb_to_yuv_matrix / get_yuv_to_rgb_matrix / ncl_rgb_to_yuv_matrix* / get_yuv_constants* / get_primaries_xy (src/yuv_rgb/color.rs)",
                    "TransferFunction::to_linear / to_gamma dispatch (src/yuv_rgb/transfer.rs)", "transform_primaries, gamut_*_matrix, white_point_adaptation_matrix",
                    "all TryFrom impls between Yuv, Rgb, LinearRgb, Xyb (src/rgb.rs, linear_rgb.rs, xyb.rs, yuv.rs)"]
